@@ -291,7 +291,9 @@ impl C09 {
                 w1.oracle_fault = of;
                 let r1 = c.op.apply(&mut w1);
                 out.count("c09.paired_fault_runs");
-                let same = r0.tx == r1.tx && d0 == w1.digest();
+                // "the same results": accepted or rejected alike, and the same world afterwards (balances, storage,
+                // staking); response attributes and which queries were made along the way are not results
+                let same = r0.ok() == r1.ok() && d0 == w1.digest();
                 if !same {
                     let (a, b) = (r0.tx.as_ref().unwrap(), r1.tx.as_ref().unwrap());
                     out.violation(
@@ -316,15 +318,12 @@ impl Monitor for C09 {
             // (a) call-trace: the reward plumbing's external contracts are never touched
             if let Some(tr) = c.res.trace() {
                 out.count("c09.traces_checked");
-                for e in tr.execs.iter() {
-                    if e.callee == SWAP || e.callee == ORACLE {
-                        out.violation(P, "no_calls_to_swap_or_oracle", format!("{} executed {} on {}", c.op.kind(), e.msg, e.callee));
-                    }
-                }
-                for (from, to) in tr.queries.iter() {
-                    if to == SWAP || to == ORACLE {
-                        out.violation(P, "no_calls_to_swap_or_oracle", format!("{}: {} queried {}", c.op.kind(), from, to));
-                    }
+                // counted, not judged: the property is about outcomes (decided by the paired runs below), not about
+                // the call graph; an exit that touches the plumbing is re-run under every fault mode at once
+                let touches = tr.execs.iter().any(|e| e.callee == SWAP || e.callee == ORACLE) || tr.queries.iter().any(|(_, to)| to == SWAP || to == ORACLE);
+                if touches {
+                    out.count("c09.exit_txs_touching_swap_or_oracle");
+                    self.since_pair = self.pair_every;
                 }
             }
             self.since_pair += 1;
